@@ -912,6 +912,11 @@ def parsed_cases(base_seed, tier):
     ]
     for j, (pk, items) in enumerate(shared):
         rec(('shared', j), [{'op': 'PARSE', 'items': items, 'packages': pk}])
+    # (NOT generated: the same documents as ONE paragraph directly in the body. Nothing normalises such a document, and the
+    #  shared body tokens of a macro used twice are then listed by two containers - the parser appends nodes that are not
+    #  detached, which is outside the premise of the statement; observed on the unchanged tree, recorded in DESIGN 10.3)
+    for j in range(0, len(cat), 40):
+        rec(('cat-bare', j), [{'op': 'PARSE', 'items': ['%s cz%d' % (t, k) for k, t in enumerate(cat[j:j + 6])], 'bare': True}])
     for rel in PARSED_CORPUS + (['Doc/plastex.tex'] if tier == 'thorough' else []):
         rec(('file', rel), [{'op': 'PARSEFILE', 'rel': rel}])
     r = random.Random(core.h64('C06-parsed-bags', base_seed))
@@ -934,7 +939,11 @@ def check_parsed(doc):
     def walk(node):
         kids = list(node.childNodes) if node.nodeType != Node.TEXT_NODE else []
         for i, c in enumerate(kids):
-            if c.parentNode is not node:
+            p = c.parentNode
+            # (a macro lists the children of its own `self` argument: until the enclosing paragraph is normalised their
+            #  parent link names that argument fragment, whose own parent is the macro - the transparent-fragment rule)
+            via_self = p is not None and p.nodeType == Node.DOCUMENT_FRAGMENT_NODE and p.parentNode is node
+            if p is not node and not via_self:
                 raise Violation('C06|parsed|parent-link', {'lister': node.nodeName, 'child': c.nodeName,
                                                            'child_parent': getattr(c.parentNode, 'nodeName', None)})
             if getattr(c, 'ownerDocument', None) is not doc:
@@ -983,8 +992,9 @@ def execute_parsed(record, res):
                 tex = TeX(file=path)
             else:
                 tex = TeX()
-                tex.input('\\documentclass{article}%s\\begin{document}\\section{S}\\label{fzl1}\\label{sec1}\n%s\n\\end{document}'
-                          % (''.join('\\usepackage{%s}' % q for q in op.get('packages', [])), ' '.join(op['items'])))
+                tex.input('\\documentclass{article}%s\\begin{document}%s%s\\end{document}'
+                          % (''.join('\\usepackage{%s}' % q for q in op.get('packages', [])),
+                             'Bare\\label{fzl1}\\label{sec1} ' if op.get('bare') else '\\section{S}\\label{fzl1}\\label{sec1}\n', ' '.join(op['items'])))
             doc = tex.parse()
         except BaseException as e:
             log.append(['raise', type(e).__name__])          # the input does not get through the parser: no tree to judge
